@@ -10,4 +10,5 @@ for c in "$@"; do
   echo "check $c: rc=$rc violations=$n"
   echo "$out" | grep "^VIOLATION" | head -3
 done
+cd /verif && git checkout -- evidence      # evidence written while a seeded change was applied says nothing about the tree
 cd /repo && git checkout -- . && git status --short | head -3
